@@ -132,7 +132,10 @@ func scaleSource(shape string, n int) string {
 			"def a \"nm\" { def s { x = 2 }\n def s \"k\" { x = 3 } }\nbind a -> struct\n",
 			"def a { def g { def b { x = 1 } } }\nbind a -> struct\n",
 			"def a { name = 3 }\ndef a { def name {} }\nbind a:last -> slice\n",
-		}[n%10])
+			"def a { p = 1 }\nbind a -> struct\n",
+			"def a \"n\" { y = 1; q = \"s\" }\nbind a:all -> slice\n",
+			"def a { def total_emb { p = 2 } }\nbind a -> struct\n",
+		}[n%13])
 	case "div-int-zero":
 		sb.WriteString("print 1/0\n")
 	case "div-float-zero":
@@ -163,15 +166,22 @@ func scaleSource(shape string, n int) string {
 // the Unmarshal target of the C06 replays: fields of every kind a nested block, a nil or a block value may be aimed at
 // (an anonymous struct type: a named one would have to match the block type by name)
 type totalTarget = struct {
-	Name string
-	F    any
-	B    *int
-	C    map[string]int
-	X    []int
-	E    [2]int
-	S    struct{ X int }
-	G    *struct{ B int }
-	Y    int
+	Name      string
+	F         any
+	B         *int
+	C         map[string]int
+	X         []int
+	E         [2]int
+	S         struct{ X int }
+	G         *struct{ B int }
+	Y         int
+	*TotalEmb // an embedded pointer, nil: its promoted fields P and Q are found by name but cannot be reached
+}
+
+// TotalEmb is embedded by pointer in the C06 target
+type TotalEmb struct {
+	P int
+	Q string
 }
 
 type totalRes struct {
@@ -180,11 +190,11 @@ type totalRes struct {
 	Msg   string `json:"msg,omitempty"`
 }
 
-var totalAPIs = []string{"Parse", "Interpret", "Unmarshal", "ParseFile", "InterpretFile", "UnmarshalFile", "InterpretFile/z"}
+var totalAPIs = []string{"Parse", "Interpret", "Unmarshal", "ParseFile", "InterpretFile", "UnmarshalFile", "InterpretFile/z", "ParseFile/e"}
 
 func runAPI(api string, src []byte) (r totalRes) {
 	r.API = api
-	if len(src) > 20000 && strings.HasSuffix(api, "/z") {
+	if len(src) > 20000 && (strings.HasSuffix(api, "/z") || strings.HasSuffix(api, "/e")) {
 		r.Class = "ok" // the scaled inputs are not replayed in 8-byte reads
 		return r
 	}
@@ -198,8 +208,16 @@ func runAPI(api string, src []byte) (r totalRes) {
 	var t totalTarget
 	// the file variants get the input in 4096-byte pages, or (the "/z" entry points) in 8-byte reads each followed by a zero-byte read
 	zero := strings.HasSuffix(api, "/z")
-	api = strings.TrimSuffix(api, "/z")
+	eofData := strings.HasSuffix(api, "/e") // 8-byte reads, the last one returning its data together with io.EOF
+	api = strings.TrimSuffix(strings.TrimSuffix(api, "/z"), "/e")
 	file := func() *scriptedFile {
+		if eofData {
+			st := chopped(string(src), 8, nil)
+			if len(st) > 0 {
+				st[len(st)-1].err = io.EOF
+			}
+			return &scriptedFile{name: "t.bcl", steps: st}
+		}
 		if !zero {
 			return &scriptedFile{name: "t.bcl", steps: chopped(string(src), 4096, nil)}
 		}
@@ -343,6 +361,11 @@ func replayTotal(args []string) int {
 			site := "?"
 			if m := reBclFrame.FindStringSubmatch(se); m != nil {
 				site = m[1]
+			}
+			if strings.Contains(se, "all goroutines are asleep") {
+				s.bad("the call can never return: every goroutine of the process is blocked (the Go runtime reports a deadlock)", "deadlock:"+site, raw, map[string]string{"src": string(trunc(src, 300)), "stderr": string(trunc([]byte(se), 1500))}, true)
+				w = startWorker()
+				return
 			}
 			s.bad("the process died while handling the input ("+msg+"): a panic in a goroutine of the library", "died:"+site, raw, map[string]string{"src": string(trunc(src, 300)), "stderr": string(trunc([]byte(se), 1500))}, true)
 			w = startWorker()
